@@ -2331,8 +2331,22 @@ impl<'g, 'r> ProgGen<'g, 'r> {
                 self.label("return-with-foreign-flags");
                 let g8: Vec<String> = self.globals.iter().filter(|g| g.kind == VarKind::Scalar && is8(g.ty) && g.mem == MemQual::Default && !g.name.starts_with("hv")).map(|g| g.name.clone()).collect();
                 let arrs: Vec<(String, usize)> = self.globals.iter().filter_map(|g| match g.kind { VarKind::Array(n) if is8(g.ty) && g.mem == MemQual::Default => Some((g.name.clone(), n)), _ => None }).collect();
-                let style = self.g.below(3);
-                if style == 0 && g8.len() >= 2 {
+                let style = self.g.below(4);
+                if style == 3 && !arrs.is_empty() && g8.len() >= 2 {
+                    // one alternative of a ?: indexes by a variable: Y is given back inside that alternative
+                    let (ar, n) = self.g.pick(&arrs).clone();
+                    let v = g8[0].clone();
+                    let c = g8[1].clone();
+                    if n.is_power_of_two() {
+                        body.push(Stmt::Expr(Expr::Assign(Some(BinOp::And), LValue::Var(v.clone()), Box::new(Expr::lit(n as i32 - 1)))));
+                    } else {
+                        body.push(Stmt::Expr(Expr::assign(LValue::Var(v.clone()), Expr::lit(0))));
+                    }
+                    let elem = Expr::Lv(LValue::Index(ar, Box::new(Expr::var(&v))));
+                    let k = Expr::lit(self.g.below(3) as i32);
+                    let e = if self.g.chance(1, 2) { Expr::Ternary(Box::new(Expr::var(&c)), Box::new(elem), Box::new(k)) } else { Expr::Ternary(Box::new(Expr::var(&c)), Box::new(k), Box::new(elem)) };
+                    body.push(Stmt::Return(Some(e)));
+                } else if style == 0 && g8.len() >= 2 {
                     let k = self.g.below(3) as i32;
                     let reg = if self.g.chance(1, 2) { "X" } else { "Y" };
                     body.push(Stmt::Expr(Expr::assign(LValue::Var(g8[0].clone()), Expr::lit(k))));
